@@ -28,6 +28,9 @@ LEVEL_TEXT = (
 )
 LEVEL_NOTE = "Trusted: vpchk/refs (self-tested on published vectors), pyca bcrypt, Hypothesis."
 TECHNIQUE = "Hypothesis differential testing between libpass hashers, passlib hashers and an independent reference"
+#: thorough tier: seed-dependent tasks are repeated under this many derived seeds (run.py); the listed task functions enumerate fixed domains
+THOROUGH_REPS = 4
+DETERMINISTIC_FNS = ()
 
 PAIRS = {
     "sha256": ("SHA256Hasher", "sha256_crypt"),
